@@ -237,6 +237,20 @@ class Run(object):
                 self.fail(name, 'got %r want %r' % (got, want))
             if st is not None:
                 st.monitor_evals += 1
+            # what a read hands out is the caller's: it gets edited, and the reads that follow (and the same read
+            # after the next operation) must not notice
+            r = got[1]
+            try:
+                if type(r) is list:
+                    r.append(('zz-caller', 'edit'))
+                    del r[:1]
+                elif type(r) is dict:
+                    for v in r.values():
+                        if type(v) is list:
+                            v.append('zz-caller-edit')
+                    r['zz-caller'] = 'edit'
+            except Exception:
+                pass
 
         chk('items[multi]', lambda: d.items(multi=True), list(L))
         chk('items', lambda: d.items(), [(k, last[k]) for k in fk])
